@@ -505,6 +505,38 @@ fn op_selfsigned(i: &Value) -> R<Value> {
 	}))
 }
 
+/// A private root CA and a server certificate signed by it (for the TLS-wrapped mock CA, C18).
+fn op_tls_chain(i: &Value) -> R<Value> {
+	let gen = || -> R<PKey<Private>> {
+		PKey::from_ec_key(
+			openssl::ec::EcKey::generate(
+				EcGroup::from_curve_name(Nid::X9_62_PRIME256V1).map_err(e)?.as_ref(),
+			)
+			.map_err(e)?,
+		)
+		.map_err(e)
+	};
+	let to_pub = |k: &PKey<Private>| -> R<PKey<Public>> {
+		PKey::public_key_from_pem(&k.public_key_to_pem().map_err(e)?).map_err(e)
+	};
+	let now = now_unix();
+	let root_key = gen()?;
+	let root_cn = i["root_cn"].as_str().unwrap_or("verif root");
+	let root = make_cert(&to_pub(&root_key)?, &root_key, &[], &[], now - 86400, now + 3650 * 86400, root_cn, root_cn, true)?;
+	let leaf_key = gen()?;
+	let (nb, na) = if i["expired"].as_bool().unwrap_or(false) {
+		(now - 30 * 86400, now - 86400)
+	} else {
+		(now - 3600, now + 30 * 86400)
+	};
+	let leaf = make_cert(&to_pub(&leaf_key)?, &root_key, &strs(&i["dns"]), &strs(&i["ips"]), nb, na, "verif server", root_cn, false)?;
+	Ok(json!({
+		"root_pem": String::from_utf8_lossy(&root.to_pem().map_err(e)?),
+		"leaf_pem": String::from_utf8_lossy(&leaf.to_pem().map_err(e)?),
+		"leaf_key_pem": String::from_utf8_lossy(&leaf_key.private_key_to_pem_pkcs8().map_err(e)?),
+	}))
+}
+
 fn op_parse_cert(i: &Value) -> R<Value> {
 	let pem = i["pem"].as_str().unwrap_or("");
 	let chain = X509::stack_from_pem(pem.as_bytes()).map_err(e)?;
@@ -572,6 +604,7 @@ fn dispatch(i: &Value) -> Value {
 		"issue" => op_issue(i),
 		"selfsigned" => op_selfsigned(i),
 		"parse_cert" => op_parse_cert(i),
+		"tls_chain" => op_tls_chain(i),
 		"pub_of_key" => op_pub_of_key(i),
 		"sha256" => op_sha256(i),
 		op => Err(format!("unknown op {op}")),
